@@ -74,7 +74,7 @@ fn civil(unix: Duration) -> (i64, u32, u32, u32, u32, u64) {
     (y, m, d, h, mi, ms_in_day)
 }
 
-fn period_of(roll: Roll, unix: Duration) -> (String, u64) {
+pub fn period_of(roll: Roll, unix: Duration) -> (String, u64) {
     let (y, m, d, h, mi, ms_in_day) = civil(unix);
     match roll {
         Roll::Day => (format!("{y:04}-{m:02}-{d:02}"), ms_in_day),
@@ -1130,7 +1130,7 @@ pub fn exec_plan(
 // ---------------------------------------------------------------------------------------------
 
 fn applicable_faults(kind: &OpKind) -> Vec<Fault> {
-    let mut v = vec![Fault::Err, Fault::CrashBefore, Fault::CrashAfter];
+    let mut v = vec![Fault::Err, Fault::ErrOfKind(std::io::ErrorKind::Interrupted), Fault::CrashBefore, Fault::CrashAfter];
     if *kind == OpKind::Write {
         v.extend([
             Fault::Eintr,
@@ -1353,7 +1353,10 @@ impl Engine for Fsim {
         for _ in 0..n_chains {
             let len = 2 + ch.choose(2) as usize;
             let mut steps = Vec::new();
-            for i in 0..len {
+            // a quarter of the chains hit the same kind of call with the same fault several times in a row (what a
+            // retry loop inside the worker, or around it, sees)
+            let repeat = ch.chance(1, 4);
+            for i in 0..if repeat { 1 } else { len } {
                 let kind = if i == 0 {
                     ch.pick(&[OpKind::Write, OpKind::Write, OpKind::SyncAll, OpKind::OpenNew]).clone()
                 } else {
@@ -1367,6 +1370,18 @@ impl Engine for Fsim {
                     .collect();
                 let f = options[ch.choose(options.len() as u32) as usize].clone();
                 steps.push((kind, f));
+            }
+            if repeat {
+                let k = 2 + ch.choose(4) as usize;
+                let first = steps[0].clone();
+                steps = vec![first; k];
+                // other kinds of retryable-looking errors too
+                if let Fault::ErrOfKind(_) = steps[0].1 {
+                    let kind = *ch.pick(&[std::io::ErrorKind::Interrupted, std::io::ErrorKind::WouldBlock, std::io::ErrorKind::TimedOut]);
+                    for st in steps.iter_mut() {
+                        st.1 = Fault::ErrOfKind(kind);
+                    }
+                }
             }
             let chain = FaultChain {
                 start_at: ch.choose(kinds.len() as u32 + 1) as u64,
